@@ -33,6 +33,7 @@ structure Mon where
   stopped : List BId := []              -- buses whose stop() has returned
   expSince : List (Nat × List EId) := []        -- per pending expect(): events of its bus begun since the call, in order
   expHandlers : List (Nat × List Reg) := []     -- per pending expect(): the bus's handler registry before the call
+  expResolvedAt : List (Nat × Nat) := [] -- expect() calls: the time their future was resolved with a match
   expNested : List Nat := []            -- expect() calls resolved by an event whose activation is nested inside that of an earlier match
   deriving Repr
 
@@ -216,7 +217,7 @@ def Mon.step (m : Mon) (w : World) (l : Label) (w' : World) : Mon × List Vio :=
     ({ m with begun := m.begun ++ [(b, e)],
               expSince := m.expSince.map fun (x, l) =>
                 match w.waiter x with
-                | .expecting b' _ _ _ _ => if b' == b then (x, l ++ [e]) else (x, l)
+                | .expecting b' _ _ _ _ _ => if b' == b then (x, l ++ [e]) else (x, l)
                 | _ => (x, l) },
      if !C02.beginOrder w p b e then v "C02" "beginOrder" ["C02-inv"] s!"bus {b}: {e} begins inline while the run loop holds an earlier event" else [])
   | .hSched _ i b e k =>
@@ -246,8 +247,9 @@ def Mon.step (m : Mon) (w : World) (l : Label) (w' : World) : Mon × List Vio :=
       | .expect x pred =>
         if expectOpen w x (w.inst i).hid && expectMatch pred (w.inst i).ev == some true then
           let since := ((m.expSince.find? (·.1 == x)).map (·.2)).getD []
-          let key := match w.waiter x with | .expecting _ key _ _ _ => key | _ => 0
+          let key := match w.waiter x with | .expecting _ key _ _ _ _ => key | _ => 0
           let earlier := since.takeWhile (· != (w.inst i).ev)
+          let m := { m with expResolvedAt := (m.expResolvedAt.filter (·.1 != x)) ++ [(x, w.now)] }
           if earlier.any (fun e => (key == 0 || (w.ev e).etype == key) && expectMatch pred e == some true &&
                 (m.ended.filter (· == ((w.inst i).bus, e))).length < (m.begun.filter (· == ((w.inst i).bus, e))).length)
           then { m with expNested := m.expNested ++ [x] } else m
@@ -316,11 +318,11 @@ def Mon.step (m : Mon) (w : World) (l : Label) (w' : World) : Mon × List Vio :=
      | .took e => ({ m with dropped := m.dropped ++ [(b, e)] }, [])
      | _ => (m, []))
   | .expectBegin x b _ _ _ _ =>
-    ({ m with expNested := m.expNested.filter (· != x), expSince := (m.expSince.filter (·.1 != x)) ++ [(x, [])],
+    ({ m with expNested := m.expNested.filter (· != x), expResolvedAt := m.expResolvedAt.filter (·.1 != x), expSince := (m.expSince.filter (·.1 != x)) ++ [(x, [])],
               expHandlers := (m.expHandlers.filter (·.1 != x)) ++ [(x, (w.bus b).handlers)] }, [])
   | .expectEnd x got =>
     match w.waiter x with
-    | .expecting b key _ _ _ =>
+    | .expecting b key _ _ _ _ =>
       let since := ((m.expSince.find? (·.1 == x)).map (·.2)).getD []
       let pred := match (w.bus b).handlers.find? (fun r => match r.kind with | .expect x' _ => x' == x | _ => false) with
         | some r => (match r.kind with | .expect _ p => p | _ => 0)
@@ -335,7 +337,14 @@ def Mon.step (m : Mon) (w : World) (l : Label) (w' : World) : Mon × List Vio :=
           (if cands.head? != some e then
              v "C18" "notFirst" (if m.expNested.contains x then ["F0"] else [])
                s!"expect() of task {x} returned {e}; first match in processing order is {cands.head?}" else [])
-        | none => []) ++
+        | none =>
+          -- the call times out although its future was resolved with a match before the deadline
+          (match w.waiter x with
+           | .expecting _ _ _ (some d) (some e) _ =>
+             (match m.expResolvedAt.find? (·.1 == x) with
+              | some (_, t) => if t < d then v "C18" "timeoutDespiteMatch" [] s!"expect() of task {x} timed out although event {e} matched at {t}, before its deadline {d}" else []
+              | none => [])
+           | _ => [])) ++
        (let perm (l : List Reg) := l.filter fun r => match r.kind with | .expect _ _ => false | _ => true
         if perm (w'.bus b).handlers != perm before ||
            (w'.bus b).handlers.any (fun r => match r.kind with | .expect x' _ => x' == x | _ => false) then
@@ -344,7 +353,7 @@ def Mon.step (m : Mon) (w : World) (l : Label) (w' : World) : Mon × List Vio :=
   | .expectCancel x =>
     let got : Option EId := none
     match w.waiter x with
-    | .expecting b key _ _ _ =>
+    | .expecting b key _ _ _ _ =>
       let since := ((m.expSince.find? (·.1 == x)).map (·.2)).getD []
       let pred := match (w.bus b).handlers.find? (fun r => match r.kind with | .expect x' _ => x' == x | _ => false) with
         | some r => (match r.kind with | .expect _ p => p | _ => 0)
@@ -421,6 +430,13 @@ def Mon.rest (m : Mon) (w : World) : List Vio :=
     (if !(w.ev e).signal && hs.isEmpty then v "C03" "neverCompleted" [] s!"event {e}" else [])) ++
   ((insts w).flatMap fun i =>
     if isAwaiting (w.inst i).st then v "C04" "deadlock" [] s!"instance {i} still awaiting at rest" else []) ++
+  -- a handler body that has ended (returned or raised) has its outcome recorded
+  ((insts w).flatMap fun i =>
+    if (w.inst i).st == .ended && !stopRelated (hangSigs w m (w.inst i).ev ++ busHangSigs w m (w.inst i).bus) then
+      (if (w.inst i).out == .raise then
+         v "C11" "unrecorded" [] s!"instance {i} (bus {(w.inst i).bus} event {(w.inst i).ev} handler {(w.inst i).hid}) raised but no error result was ever recorded"
+       else v "C08" "unrecorded" [] s!"instance {i}: body ended but its outcome was never recorded")
+    else []) ++
   ((List.range w.nx).flatMap fun x =>
     match w.waiter x with
     | .join b _ _ | .idleWait b _ | .check b =>
